@@ -321,6 +321,22 @@ class SStr:
                 else:
                     out += [(x >> 18) | 0xF0, ((x >> 12) & 0x3F) | 0x80, ((x >> 6) & 0x3F) | 0x80, (x & 0x3F) | 0x80]
             return SBytes(out)
+        if e in ('utf16le', 'utf16be'):
+            # two bytes per BMP character, a surrogate pair above; lone surrogates need errors='surrogatepass'
+            out = []
+            for x in self.c:
+                x = SInt.of(x)
+                if bool(SBool(x.e < 0x10000)):
+                    if errors != 'surrogatepass' and bool(SBool(z3.And(x.e >= 0xD800, x.e <= 0xDFFF))):
+                        raise UnicodeEncodeError('utf-16', '\ud800', 0, 1, 'surrogates not allowed')
+                    units = [x]
+                else:
+                    y = x - 0x10000
+                    units = [(y >> 10) + 0xD800, (y & 0x3FF) + 0xDC00]
+                for u in units:
+                    lo, hi = u & 0xFF, (u >> 8) & 0xFF
+                    out += [hi, lo] if e == 'utf16be' else [lo, hi]
+            return SBytes(out)
         s = ''.join(chr(x if isinstance(x, int) else x.concretize()) for x in self.c)
         return s.encode(enc, errors)
 
@@ -398,14 +414,22 @@ def utf16_decode(b, e, errors):
         i += 2
         if bool(SBool(z3.And(u.e >= 0xD800, u.e <= 0xDBFF))):
             if i + 1 >= n:
+                if errors == 'surrogatepass':
+                    out.append(u)
+                    continue
                 raise err()
             lo = unit(i)
             if not bool(SBool(z3.And(lo.e >= 0xDC00, lo.e <= 0xDFFF))):
-                raise err()
+                if errors != 'surrogatepass':
+                    raise err()
+                out.append(u)
+                continue
             i += 2
             out.append(((u - 0xD800) << 10) + (lo - 0xDC00) + 0x10000)
         elif bool(SBool(z3.And(u.e >= 0xDC00, u.e <= 0xDFFF))):
-            raise err()
+            if errors != 'surrogatepass':
+                raise err()
+            out.append(u)
         else:
             out.append(u)
     return SStr([x if isinstance(x, int) else _norm(x.e) for x in out])
